@@ -165,9 +165,9 @@ where
                 Ok((
                     k,
                     geometry
-                        .iter()
-                        .map(|dev| g.generate(dev))
-                        .collect::<Vec<_>>(),
+                        .devices()
+                        .map(|dev| (dev.idx(), g.generate(dev)))
+                        .collect::<HashMap<_, _>>(),
                 ))
             })
             .collect::<Result<HashMap<_, _>, GainError>>()?;
@@ -190,7 +190,7 @@ where
                         dev.iter()
                             .map(|tr| {
                                 if let Some(key) = f(tr) {
-                                    gain_calcs[&key][dev.idx()].calc(tr)
+                                    gain_calcs[&key][&dev.idx()].calc(tr)
                                 } else {
                                     Drive::NULL
                                 }
